@@ -327,7 +327,7 @@ static S gen_ip_value(Tape &t, const Exp &E, int form /*4,16,0=odd*/, S &how, bo
     if (form == 4) {
         unsigned op = fromE ? (unsigned) t.below(8) : 0;
         switch (op) {
-        case 0: case 1: how = pre + "ip-same"; break;
+        case 0: case 1: how = fromE ? "E:ip-same" : "rnd:ip4"; break;
         case 2: case 3: { // last octet extended/shortened by one decimal digit: text of one is a prefix of the other
             unsigned v = o[3] * 10u + (unsigned) t.below(10);
             if (v <= 255 && o[3] != 0) { o[3] = (uint8_t) v; how = pre + "ip-last-digit-appended"; }
@@ -337,7 +337,7 @@ static S gen_ip_value(Tape &t, const Exp &E, int form /*4,16,0=odd*/, S &how, bo
         case 4: { int j = (int) t.below(4); unsigned v = o[j] * 10u + (unsigned) t.below(10); if (v <= 255 && o[j] != 0) o[j] = (uint8_t) v; else o[j] = (uint8_t) (o[j] / 10); how = pre + "ip-octet-digit"; break; }
         case 5: { int j = (int) t.below(4); o[j] = (uint8_t) (o[j] + (t.coin() ? 1 : 255)); how = pre + "ip-octet-off-by-one"; break; }
         case 6: { int j = (int) t.below(3); std::swap(o[j], o[j + 1]); how = pre + "ip-octets-swapped"; break; }
-        default: gen_ip(t, o); how = "rnd:ip-same"; fromE = false; break;
+        default: gen_ip(t, o); how = "rnd:ip4"; fromE = false; break;
         }
         return S((const char *) o, 4);
     }
@@ -498,15 +498,21 @@ static S describe(const Exp &E, int nameType, unsigned mFlags, unsigned vflags, 
     return s + "]";
 }
 
-// classify an accept that the reference refuses, so that distinct root causes get distinct stable signatures
-static const char *classify_wrong_accept(const S &E, int nameType, const CertNames &cn) {
+// classify an accept that the reference refuses, so that distinct root causes get distinct stable signatures.  A specific
+// signature is given only when the suspected entry alone (certificate without CN and without other SAN entries) reproduces it.
+static const char *classify_wrong_accept(const S &E, int nameType, int issuer, const CertNames &cn) {
     bool ipOK = nameType == NT_ANY || nameType == NT_SAN_IP;
     if (ipOK) {
         for (auto &e : cn.san) {
             if (e.kind != c05::SK_IP || e.data.size() < 4) continue;
             S txt = ip_text((const uint8_t *) e.data.data());
-            if (e.data.size() == 4 && txt.size() == 15 && txt.substr(0, 14) == E) return "ipv4-truncated-compare";
-            if (e.data.size() != 4 && (txt == E || (txt.size() == 15 && txt.substr(0, 14) == E))) return "ip-san-length-ignored";
+            const char *sig = nullptr;
+            if (e.data.size() == 4 && txt.size() == 15 && txt.substr(0, 14) == E) sig = "ipv4-truncated-compare";
+            else if (e.data.size() != 4 && (txt == E || (txt.size() == 15 && txt.substr(0, 14) == E))) sig = "ip-san-length-ignored";
+            if (!sig) continue;
+            LeafSpec one; one.issuer = issuer; one.san.push_back(e);
+            Bytes der;
+            if (c05::mint_leaf(one, der) && evaluate(der, one, E.c_str(), NT_SAN_IP, 0, 0).accept) return sig;
         }
     }
     return "accepts-name-not-in-cert";
@@ -627,7 +633,7 @@ static void prop(Tape &t, Ctx &c) {
     if (perms.size() > 1) c.count("perm-sets-checked");
     // oracle 1: accepts => reference accepts
     if (v0.accept && E.judged && !ref)
-        VF_FAIL(classify_wrong_accept(E.text, nameType, cn), "matrixValidateCertsExt ACCEPTED but no name in the certificate matches per the property: %s",
+        VF_FAIL(classify_wrong_accept(E.text, nameType, issuer, cn), "matrixValidateCertsExt ACCEPTED but no name in the certificate matches per the property: %s",
                 describe(E, nameType, mFlags, vflags, cn, ents, nullptr).c_str());
     // oracle 3: completeness smoke
     if (smoke && !v0.accept) {
@@ -655,7 +661,7 @@ static void prop(Tape &t, Ctx &c) {
                 VF_FAIL("handshake-ignores-validation-error", "%s handshake COMPLETED although matrixValidateCertsExt refuses these options with PS_ARG_FAIL (no name check, no chain check was done): %s",
                         mxh::ver_name(hs_ver), describe(E, nameType, mFlags, vflags, cn, ents, nullptr).c_str());
             if (h.client_complete && !ref)
-                VF_FAIL(S("handshake-") + classify_wrong_accept(E.text, nameType, cn),"%s handshake COMPLETED with expectedName although no certificate name matches: %s",
+                VF_FAIL(S("handshake-") + classify_wrong_accept(E.text, nameType, issuer, cn),"%s handshake COMPLETED with expectedName although no certificate name matches: %s",
                         mxh::ver_name(hs_ver), describe(E, nameType, mFlags, vflags, cn, ents, nullptr).c_str());
             if (smoke && !h.client_complete)
                 VF_FAIL("handshake-identical-dnsname-rejected", "%s handshake refused (alert %d) although E is byte-identical to a dNSName: %s",
